@@ -274,7 +274,7 @@ pub fn work_main(a: &WorkArgs) {
     }
 }
 
-pub fn sample_text(sc: &Scenario, decisions: &[u8]) -> String {
+pub fn sample_text(sc: &Scenario, decisions: &[u16]) -> String {
     let mut s = format!("seed={} mode={} threads={} yield_mask={:#x} ", sc.seed, sc.mode, sc.threads.len(), sc.yield_mask);
     for (t, th) in sc.threads.iter().enumerate() {
         s.push_str(&format!("| t{} start={:?} key={:#x}: ", t, th.start, th.hash_key));
@@ -869,6 +869,17 @@ fn world_file(g: &GenCtx, tables: &[Vec<u32>; 4], verif_seed: u64, w: u64) -> (R
     // (orders are complete for the first 72 worlds: 24 orders x the three table-forcing variants)
     let mut main = generate(g, main_seed);
     main.probe = rng.pct(50);
+    // later worlds of a chain often run a sibling-shifted copy: the neighbours of what the
+    // process before them asked for (drawn from a PRNG of its own)
+    if w % CHAIN != 0 {
+        let mut sr = crate::rng::Rng::new(derive(verif_seed, 0x7369_6200 + w));
+        if sr.pct(60) {
+            let n = crate::scenario::sibling_shift(&mut main, g, &mut sr);
+            if n > 0 {
+                main.mode = format!("{}+sibling_shift", main.mode);
+            }
+        }
+    }
     // prologue
     let mut pro = Scenario {
         seed: derive(verif_seed, 0x7072_6f00 + w),
@@ -959,6 +970,11 @@ pub const CHAIN: u64 = 4;
 /// an arbitrary point of a write, as seen by the next process). Returns (files seen, fault kind).
 pub fn apply_disk_fault(tmp: &str, log: &str, verif_seed: u64, w: u64) -> (u64, Option<&'static str>) {
     let mut files: Vec<String> = std::fs::read_to_string(log).unwrap_or_default().lines().map(|l| l.to_string()).filter(|p| p.starts_with(tmp)).collect();
+    // ... and whatever else lies under the chain's directory: files the library reached through
+    // a hard-coded shared path (/dev/shm, /var/tmp, /tmp are bind mounts of its sub-directories)
+    // carry that path in the log, not this one
+    crate::procs::files_under_pub(std::path::Path::new(tmp), &mut files);
+    files.retain(|p| !p.ends_with("/fslog.txt"));
     files.sort();
     files.dedup();
     files.retain(|p| std::fs::metadata(p).map(|m| m.is_file()).unwrap_or(false));
